@@ -164,6 +164,36 @@ class World:
             if op[2] in x.symbolic_expressions:
                 del x.symbolic_expressions[op[2]]
                 self.emit("symdel %d %d" % (op[1], op[2]))
+        elif k == "reload":
+            # save + load: everything attached to the IR is replaced by the
+            # loaded objects (same UUIDs, fresh indexes); detached nodes stay
+            import io
+            buf = io.BytesIO()
+            self.ir.save_protobuf_file(buf)
+            buf.seek(0)
+            ir2 = self.g.IR.load_protobuf_file(buf)
+            by = {}
+            for n in list(ir2.modules) + list(ir2.sections) + \
+                    list(ir2.byte_intervals) + list(ir2.byte_blocks) + \
+                    list(ir2.symbols):
+                by[n.uuid] = n
+
+            def swap(lst):
+                ids = []
+                for i, o in enumerate(lst):
+                    if o.uuid in by and o.ir is self.ir:
+                        lst[i] = by[o.uuid]
+                        ids.append(i)
+                return ids
+            # order matters: `o.ir is self.ir` is asked of the OLD objects
+            bl = swap(self.blks)
+            bi_ids = swap(self.bis)
+            sec_ids = swap(self.secs)
+            swap(self.symbols)
+            self.mods = [by[m.uuid] for m in self.mods]
+            self.ir = ir2
+            fmt_ = lambda l: ",".join(str(i) for i in l) or "-"   # noqa
+            self.emit("reload %s %s" % (fmt_(bi_ids), fmt_(sec_ids)))
         elif k == "sec-move":         # changes module-scope composition only
             self.secs[op[1]].module = self.mods[op[2]]
         else:
@@ -171,6 +201,8 @@ class World:
 
     def gen_edit(self):
         rng = self.rng
+        if rng.random() < 0.02 and self.loadable():
+            return ("reload",)
         if self.sym and rng.random() < 0.3:
             if rng.random() < 0.75:
                 return ("sym-set", rng.randrange(N_BI), rng.randrange(0, 9))
@@ -205,6 +237,12 @@ class World:
         if r < 0.98:
             return ("bi-discard", rng.randrange(N_BI), rng.randrange(N_SEC))
         return ("sec-move", rng.randrange(N_SEC), rng.randrange(2))
+
+    def loadable(self):
+        """can the IR be saved and loaded back unchanged? (stored bytes within
+        size hold by construction; symbolic expressions refer to symbols of
+        module 0, which comes first)"""
+        return all(m.ir is self.ir for m in self.mods)
 
     # ---- scans (specification side), computed from the real objects'
     # plain attributes only
